@@ -28,6 +28,7 @@
 #include <fcppt/container/grid/next_position.hpp>
 #include <fcppt/container/grid/object.hpp>
 #include <fcppt/container/grid/offset.hpp>
+#include <fcppt/container/grid/output.hpp>
 #include <fcppt/container/grid/pos.hpp>
 #include <fcppt/container/grid/pos_range.hpp>
 #include <fcppt/container/grid/pos_ref_range.hpp>
@@ -51,6 +52,7 @@
 #include <algorithm>
 #include <cstddef>
 #include <memory>
+#include <sstream>
 #include <string>
 #include <utility>
 #include <vector>
@@ -676,6 +678,13 @@ std::string handle_grid(std::vector<std::string> const &t)
   }
   if (op == "fill")
     return R::fill_line(d, vh::to_ll(t[2]), vh::to_ll(t[3]));
+  if (op == "out")
+  {
+    typename R::G const g{R::mk(d, vh::to_ll(t[2]))};
+    std::ostringstream o;
+    o << g;
+    return "out=" + o.str();
+  }
   if (op == "regs")
     return R::regs_line({d, vh::int_list(t[3]), vh::int_list(t[5])}, {vh::to_ll(t[2]), vh::to_ll(t[4]), vh::to_ll(t[6])}, t[7]);
   if (op == "cmp")
@@ -801,7 +810,7 @@ std::string handle(std::vector<std::string> const &t)
     std::vector<std::size_t> lists;   // list arguments that must be non-negative
     std::vector<std::size_t> slists;  // signed list arguments
     std::size_t want = 0;
-    if (op == "mk" || op == "mkc" || op == "refall") { lists = {1}; want = 3; }
+    if (op == "mk" || op == "mkc" || op == "refall" || op == "out") { lists = {1}; want = 3; }
     else if (op == "all") { lists = {1}; want = 2; }
     else if (op == "at") { lists = {1, 3}; want = 4; }
     else if (op == "ats") { lists = {1}; want = 4; }
